@@ -38,7 +38,7 @@ def parse_iso(s):
 PROFILES = [
     "plain", "ties", "limits_type", "limits_seg", "limits_both", "scarce_depots", "no_depots_key",
     "empty_depots", "multi_cycle", "forbid", "multi_type", "coupled", "hitchhike", "nonmetric",
-    "two_days", "tiny",
+    "two_days", "tiny", "tight", "bigshunt", "multi_cycle", "multi_cycle",
 ]
 
 
@@ -77,12 +77,18 @@ def gen_instance(seed, index, profile=None, max_trips=10, allow_weird=False):
     if p in ("ties", "tiny"):
         shunt_min = 0
         shunt_dh = rng.choice([0, 0, 60])
+    if p == "tight":
+        shunt_dh = rng.choice([60, 300, 300])
+    if p == "bigshunt":
+        # minimal shunting longer than a whole dead-head connection
+        shunt_min = rng.choice([600, 900])
+        shunt_dh = rng.choice([0, 60])
     if p == "nonmetric":
         dur = [[0 if i == j else rng.choice([300, 600, 900, 1800, 3600]) for j in range(nloc)] for i in range(nloc)]
         dist = [[0 if i == j else rng.choice([1000, 5000, 20000, 60000]) for j in range(nloc)] for i in range(nloc)]
     else:
         pos = sorted(rng.sample(range(0, 12), nloc))
-        unit_t = rng.choice([300, 450, 900])
+        unit_t = rng.choice([300, 450, 900]) if p != "bigshunt" else rng.choice([60, 120])
         unit_d = rng.choice([1000, 5000, 8000])
         dur = [[abs(pos[i] - pos[j]) * unit_t for j in range(nloc)] for i in range(nloc)]
         dist = [[abs(pos[i] - pos[j]) * unit_d for j in range(nloc)] for i in range(nloc)]
@@ -95,6 +101,8 @@ def gen_instance(seed, index, profile=None, max_trips=10, allow_weird=False):
 
     # ---- routes and departures -> trips (one per departure segment)
     ntrips_target = rng.randint(1, max_trips)
+    if p == "multi_cycle":
+        ntrips_target = rng.randint(min(6, max_trips), max_trips)
     if p == "tiny":
         ntrips_target = rng.randint(1, 3)
     horizon = 86400 if p != "two_days" else 2 * 86400
@@ -131,10 +139,24 @@ def gen_instance(seed, index, profile=None, max_trips=10, allow_weird=False):
         r = routes[rng.randrange(len(routes))]
         tyrec = [t for t in types if t["id"] == r["ty"]][0]
         t0 = rng.randrange(4 * 3600 // grid, (horizon - 6 * 3600) // grid) * grid
+        if p == "multi_cycle":
+            # many trips at the same time -> many vehicles with short tours
+            t0 = rng.randrange(8 * 3600 // grid, 10 * 3600 // grid) * grid
         if p in ("ties", "tiny") and trips and rng.random() < 0.7:
             # back-to-back with an existing trip: start exactly when another one ends / starts
             other = rng.choice(trips)
             t0 = rng.choice([other["dep"] + other["dur"], other["dep"]])
+        if p in ("tight", "bigshunt") and trips and rng.random() < 0.75:
+            # a connection with (almost) no slack: depart exactly when a vehicle coming from another
+            # trip can be there at the earliest (plus a slack smaller than the dead-head shunting)
+            other = rng.choice(trips)
+            o1 = r["segs"][0]["orig"]
+            if other["dest"] == o1:
+                need = shunt_min
+            else:
+                need = dur[locs.index(other["dest"])][locs.index(o1)] + 2 * shunt_dh
+            slack = rng.choice([0, 0, 1, max(0, shunt_dh - 1), max(0, shunt_dh // 2)])
+            t0 = other["dep"] + other["dur"] + need + slack
         dep = {"id": "d%d" % dcount, "route": r["id"], "segs": []}
         t = t0
         for k, sg in enumerate(r["segs"]):
@@ -175,6 +197,8 @@ def gen_instance(seed, index, profile=None, max_trips=10, allow_weird=False):
         ns = rng.choice([1, 1, 2, 3]) if p != "multi_cycle" else rng.choice([2, 3])
         for s in range(ns):
             st = rng.randrange(2 * 3600 // grid, (horizon - 3 * 3600) // grid) * grid
+            if p == "multi_cycle":
+                st = rng.randrange(14 * 3600 // grid, 18 * 3600 // grid) * grid
             if p in ("ties", "tiny") and trips and rng.random() < 0.5:
                 o = rng.choice(trips)
                 st = o["dep"] + o["dur"]
@@ -190,12 +214,14 @@ def gen_instance(seed, index, profile=None, max_trips=10, allow_weird=False):
         I["maxDist"] = rng.choice([max(1000, total_dist // 4), max(1000, total_dist // 2), total_dist + 50000,
                                    3 * total_dist + 100000])
         if p == "multi_cycle":
-            I["maxDist"] = 3 * total_dist + 200000
+            # several vehicles have to visit a slot -> several rotation cycles
+            # (allowance for about two trips plus dead-heads; the fleet needs several visits)
+            I["maxDist"] = int(rng.choice([1.6, 2.2, 3.0]) * max(t["dist"] for t in trips)) + rng.choice([10000, 30000])
     else:
         I["maxDist"] = 0
 
     # ---- depots
-    if p == "no_depots_key":
+    if p in ("no_depots_key", "multi_cycle"):
         given = False
     elif p == "empty_depots":
         given = True
